@@ -11,7 +11,12 @@ type symbolLayout struct {
 	fixedDark [][2]int
 }
 
+// Layouts of the 30 standard symbols are built once and read lock-free;
+// hand-made Symbol values go through a mutex-protected map.
 var (
+	stdLayoutOnce sync.Once
+	stdLayout     map[Symbol]*symbolLayout // read-only after the Once
+
 	layoutMu    sync.Mutex
 	layoutCache = map[Symbol]*symbolLayout{}
 )
@@ -24,11 +29,26 @@ func (s Symbol) toFull(r, c int) (int, int) {
 }
 
 func layoutOf(s Symbol) *symbolLayout {
-	layoutMu.Lock()
-	defer layoutMu.Unlock()
-	if l, ok := layoutCache[s]; ok {
+	stdLayoutOnce.Do(func() {
+		stdLayout = map[Symbol]*symbolLayout{}
+		for _, std := range buildSymbols() {
+			stdLayout[std] = computeLayout(std)
+		}
+	})
+	if l, ok := stdLayout[s]; ok {
 		return l
 	}
+	layoutMu.Lock()
+	defer layoutMu.Unlock()
+	l, ok := layoutCache[s]
+	if !ok {
+		l = computeLayout(s)
+		layoutCache[s] = l
+	}
+	return l
+}
+
+func computeLayout(s Symbol) *symbolLayout {
 	cw, fixed := PlacementMap(s.MappingRows(), s.MappingCols())
 	l := &symbolLayout{pos: make([][8][2]int, len(cw))}
 	for i := range cw {
@@ -41,7 +61,6 @@ func layoutOf(s Symbol) *symbolLayout {
 		r, c := s.toFull(m[0], m[1])
 		l.fixedDark = append(l.fixedDark, [2]int{r, c})
 	}
-	layoutCache[s] = l
 	return l
 }
 
